@@ -2,6 +2,7 @@
 import itertools
 import threading
 
+from vlib import build as B
 from vlib import core
 from vlib.core import Case
 from vlib.suites import _sess as S
@@ -33,7 +34,7 @@ TRUSTED_BASE = ["Coq 8.16.1 kernel (coqc), vm_compute only",
                 "Extraction with ExtrOcamlBasic, no Extract Constant; OCaml 4.13.1",
                 "hand-written session model coq/Sess/*.v (Session.handle_resend_request, retrans_record/loop/final, send_process, "
                 "Persist) tied to runtime/session.cpp, persist.cpp, filepersist.cpp by differential execution of whole histories",
-                "ocaml/prelude.ml + ocaml/c18_driver.ml, harness/h_sess.cpp + sess_harness.hpp + vsock.hpp + vclock.cpp, vlib"]
+                "ocaml/prelude.ml + ocaml/c18_driver.ml, harness/h_c18.cpp + sess_harness.hpp + vsock.hpp + vclock.cpp, vlib"]
 ASSUMPTIONS = ["always_seqnum_assign = false (with the option on fix8 renumbers what it resends and stores it again; such "
                "histories are tied model = implementation but not judged by c18_ok)",
                "the stored messages are what send_process stored (single sends and batches: since the repair d862447 the "
@@ -41,7 +42,8 @@ ASSUMPTIONS = ["always_seqnum_assign = false (with the option on fix8 renumbers 
                "sequence numbers stay far below 2^32"]
 RULE = ("histories: logon, k <= 8 sends (single messages and batches) mixing application and admin messages (so that the store has holes; file, memory and "
         "no persister; initiator and acceptor; sometimes a restart on the file persister), then a ResendRequest [B,E], a new "
-        "message, sometimes a second request and another message; 3 of 7 requests arrive in a state other than continuous: with "
+        "message, sometimes a second request and another message; a class of multi-request histories (a bounded request "
+        "ending below the highest stored number, 1..3 further new messages, then a wider later request; file/mem); 3 of 7 requests arrive in a state other than continuous: with "
         "their own MsgSeqNum ahead of the expected one (our ResendRequest goes first), while a TestRequest of ours is pending "
         "(after a TICK), or while our ResendRequest is pending.  thorough: ALL subsets of stored numbers x ALL ranges "
         "(B, E in 0..k+3) for k <= 5, random beyond; quick: all of k <= 2, a sample of k = 3..5 and random ones up to k = 8, always "
@@ -50,7 +52,21 @@ RULE = ("histories: logon, k <= 8 sends (single messages and batches) mixing app
 
 
 def build(tier):
-    return S.build_sess()
+    """h_c18 = the shared session harness with a snapshot that does not move the file persister's descriptor
+    (see harness/h_c18.cpp); same protocol, trace format and metadata dump as h_sess."""
+    import os
+    import subprocess
+    exe = B.harness("h_c18", runtime=None, schema="utest", extra_srcs=["vclock.cpp"])
+    meta = exe + ".meta"
+    if not os.path.exists(meta):
+        env = dict(os.environ, ASAN_OPTIONS="detect_leaks=0")
+        out = subprocess.run([exe, "--meta"], stdout=subprocess.PIPE, stderr=subprocess.PIPE, env=env, timeout=120)
+        if out.returncode != 0 or not out.stdout:
+            raise B.BuildError("h_c18 --meta failed: " + out.stderr.decode(errors="replace")[-2000:])
+        tmp = meta + ".tmp%d" % os.getpid()
+        open(tmp, "wb").write(out.stdout)
+        os.rename(tmp, meta)
+    return {"impl": [exe], "driver_args": [meta], "per_case_timeout": 30}
 
 
 def EXHAUSTIVE(tier):
@@ -125,7 +141,10 @@ def history(rng, role, persist, pattern, reqs, asa=0, restart_at=None, step_ns=N
             h.inb("2", [(7, b), (16, e)])
         else:
             h.inb("2", [(7, b), (16, e)])
-        h.send(S.spec("D", S.app_fields(rng, "D", h.now)))
+        for _ in range(rq[3] if len(rq) > 3 else 1):        # new application messages after the answer
+            h.clock(rng.choice([10**6, 10**9]))
+            t = rng.choice(["D", "D", "F", "8"])
+            h.send(S.spec(t, S.app_fields(rng, t, h.now)))
     return h.line()
 
 
@@ -183,6 +202,23 @@ def gen_cases(rng, tier):
             reqs.append((rng.randint(0, last + 4), rng.choice([0, 0, rng.randint(0, last + 6)]), rng.choice(MODES)))
         restart_at = rng.randrange(1, k) if (per == "file" and rng.random() < 0.2 and k > 2) else None
         cs.append(Case(history(rng, role, per, pat, reqs, restart_at=restart_at), "random-%s" % per))
+    # 2b. a bounded request that stops below the highest stored number, further new messages, then a later request
+    #     that covers older numbers above the first End (a replay reads the store while new records are appended:
+    #     what is resent must still be what was ORIGINALLY transmitted under each number)
+    for _ in range(900 if thorough else 220):
+        k = rng.randint(4, 8)
+        pat = "".join(rng.choice("aaaaahB") for _ in range(k))
+        per = rng.choice(["file", "file", "file", "mem"])
+        last = 1 + k + 2 * pat.count("B")
+        e1 = rng.randint(2, last - 1)
+        b1 = rng.randint(1, e1)
+        n_new = rng.randint(1, 3)
+        b2 = rng.randint(1, e1 + 1)
+        e2 = rng.choice([0, 0, last + n_new + 2, rng.randint(e1 + 1, last + n_new + 1)])
+        reqs = [(b1, e1, "plain", n_new), (b2, e2, rng.choice(["plain", "plain", "testreq"]), 1)]
+        if rng.random() < 0.3:
+            reqs.append((1, 0, "plain", 1))
+        cs.append(Case(history(rng, rng.choice("IA"), per, pat, reqs), "later-wider-%s" % per))
     # 3. always_seqnum_assign on: tied only (ranges up to the latest: no feedback through the re-stored messages)
     for _ in range(150 if thorough else 30):
         k = rng.randint(1, 6)
@@ -330,8 +366,11 @@ def extra_evidence(ctx):
 
 
 def shrink(case):
-    """Drop one operation other than START / the logon / the first ResendRequest."""
+    """Drop one operation other than START / the logon / the first ResendRequest.  Histories with several
+    requests are kept whole (a later answer may depend on everything before it)."""
     ops = case.line.split("|")
+    if sum(1 for o in ops if o.startswith("IN ") and "33353d32" in o) > 1:
+        return []
     out = []
     for i in range(2, len(ops)):
         if ops[i].startswith("IN ") and "33353d32" in ops[i]:
